@@ -345,3 +345,64 @@ UNITS += [
          assumptions=["find_interp by its c18_find_interp contract", "grid extents <= 32 x 32 (stated bound: the index products are decided by SAT only for small extents)", "table storage seen through the four corner values of the located cell (any other read is an assertion failure)"],
          note="TwodSubgridCalculator::operator() + TwodGridData::at (real bodies): every table read is in range and is one of the four corners of the cell located by the x and y lookups (row-major: ix * ny + iy); the interpolated value itself is not decided"),
 ]
+
+# ---------------------------------------------------------------------------
+# three-argument lower_bound / upper_bound: the default comparator is TRANSPARENT (a mixed-type search compares each element with the value
+# in their common type, as std::lower_bound does with operator<)
+# ---------------------------------------------------------------------------
+ALGO = "src/corecel/math/Algorithms.hh"
+LB3_MODEL = """
+#include <stdlib.h>
+typedef double E;                 /* element type of the searched range */
+typedef float T;                  /* type of the searched value: a MIXED-type search (float query in a double grid) */
+typedef E const* ForwardIt;
+enum { CMP_transparent = 0, CMP_value_type = 1 };
+size_t g_n; E const* g_a; size_t g_k;     /* the sorted range, a witness index */
+size_t nondet_size_t(void);
+/* Less<>{}(e, v)  = e < v in the common type (double);   Less<T>{}(e, v) = T(e) < v: the element is first converted to the value's type */
+#define COMP(kind, e, v) ((kind) == CMP_transparent ? ((e) < (E)(v)) : ((T)(e) < (v)))
+/* four-argument lower_bound(first, last, value, comp) by its contract (c18_lower_bound_d: lower_bound_impl for a strict weak order): witness instances at r-1, r and g_k */
+static ForwardIt LB4(ForwardIt first, ForwardIt last, T value, int comp)
+{
+    __CPROVER_assert(first == g_a && last == g_a + g_n, "lower_bound.precondition: whole range");
+    size_t r = nondet_size_t();
+    __CPROVER_assume(r <= g_n);
+    __CPROVER_assume(r > 0 ? COMP(comp, g_a[r - 1], value) : 1);
+    __CPROVER_assume(r < g_n ? !COMP(comp, g_a[r], value) : 1);
+    __CPROVER_assume(g_k < g_n ? (g_k < r ? COMP(comp, g_a[g_k], value) : !COMP(comp, g_a[g_k], value)) : 1);
+    return g_a + r;
+}
+"""
+
+
+def build_lower_bound3(ctx):
+    pc = ctx.func(ALGO, r"CELER_FORCEINLINE_FUNCTION ForwardIt lower_bound\(ForwardIt first,\s*ForwardIt last,\s*T const& value\)", [
+        Rule(r"(?:::celeritas::)?lower_bound\(first, last, value, Less<>\{\}\)", "LB4(first, last, value, CMP_transparent)", (0, 1), note="default comparator Less<> (transparent)"),
+        Rule(r"(?:::celeritas::)?lower_bound\(first, last, value, Less<\w+>\{\}\)", "LB4(first, last, value, CMP_value_type)", (0, 1), note="comparator Less<X>: operands converted to X first"),
+    ], name="celeritas::lower_bound(first, last, value)")
+    return (HDR + LB3_MODEL + """
+ForwardIt lower_bound3(ForwardIt first, ForwardIt last, T value)
+__CPROVER_requires(g_n <= 64 && first == g_a && last == g_a + g_n && __CPROVER_r_ok(g_a, g_n * sizeof(E)) && !__CPROVER_isnanf(value))
+__CPROVER_assigns()
+/* std::lower_bound semantics with operator< on the operands' own types: everything before the result is < value, the witness element at or after it is not */
+__CPROVER_ensures(__CPROVER_same_object(__CPROVER_return_value, g_a) && __CPROVER_return_value >= g_a && __CPROVER_return_value <= g_a + g_n)
+__CPROVER_ensures(g_k < g_n ==> ((g_a + g_k < __CPROVER_return_value) == (g_a[g_k] < (E)value)))
+{""" + pc.body + """}
+void h_lb3(void)
+{
+    T v; size_t n, k; __CPROVER_assume(n <= 64);
+    E a[64];
+    for (unsigned i = 0; i < 64; ++i) __CPROVER_assume(!__CPROVER_isnand(a[i]));
+    g_a = a; g_n = n; g_k = k;
+    lower_bound3(a, a + n, v);
+    VERIF_CANARY();
+}
+""")
+
+
+UNITS += [
+    Unit("c18_lower_bound3_mixed", build_lower_bound3, "h_lb3", enforce="lower_bound3", unwind=66, timeout=300, backend=["sat", "cvc5"],
+         must_have=[r"lower_bound3.postcondition", r"lower_bound.precondition"], checks=["--bounds-check", "--pointer-check"],
+         assumptions=["four-argument lower_bound by the c18_lower_bound_d contract (witness instances), for whichever comparator the wrapper passes", "one mixed-type binding: double elements, float value; range length <= 64 in the harness (the wrapper has no loop)"],
+         note="celeritas::lower_bound(first, last, value): forwards with a transparent comparator, so a float query in a double grid is compared in double (std::lower_bound semantics), not after narrowing the grid points"),
+]
